@@ -25,7 +25,7 @@ fn digits(s: &str) -> Option<Result<u64, ()>> {
 /// ranges-specifier = "bytes" "=" ( int-range / suffix-range );  int-range = first-pos "-" [ last-pos ];  suffix-range = "-" suffix-length
 pub fn parse(header: &str) -> Verdict {
     let Some(rest) = header.strip_prefix("bytes=") else {
-        if header.len() >= 6 && header[..5].eq_ignore_ascii_case("bytes") && header.as_bytes()[5] == b'=' {
+        if header.len() >= 6 && header.as_bytes()[..5].eq_ignore_ascii_case(b"bytes") && header.as_bytes()[5] == b'=' {
             return Verdict::DontCare;
         }
         return Verdict::Reject;
